@@ -79,14 +79,14 @@ def judge_a(t):
     for c in t.calls:
         if c.site == 'src.getData':
             last_info = c.res[0] if c.ok else None
-        elif c.site == 'symtab.genCode' and c.ok and last_info is not None and (c.mib, c.ctx) in taken_names:
-            parsed[c.mib] = (last_info, c.ctx)
+        elif c.site == 'symtab.genCode' and c.ok and last_info is not None and (c.mib, c.ctx) in taken_names and c.mib not in parsed:
+            parsed[c.mib] = (last_info, c.ctx)          # the copy taken first is the one that counts
     true_mtime = {}
     if not scn.get('realfs') and not scn.get('callback_sources'):
         for a_ in cs.attempts_of(t):
             if a_['ok'] and isinstance(a_['src'], int) and a_['src'] < len(scn.get('sources', ())):
                 for (m_, _x, _y) in a_['mods']:
-                    true_mtime[m_] = scn['sources'][a_['src']].get('mtime', core.EPOCH0)
+                    true_mtime.setdefault(m_, scn['sources'][a_['src']].get('mtime', core.EPOCH0))
     requested_mods = set(m for a_ in cs.attempts_of(t) if a_['ok'] and a_['name'] in scn['requested'] for (m, _x, _y) in a_['mods'])
     gen_calls = {}
     for c in t.by('codegen.genCode'):
